@@ -328,6 +328,11 @@ def scn_srv(params):
                         pl = by.version(version=rng.choice([proto.PROTOCOL_VERSION, 0x00000501, 0x00000503, 0, 0xFFFFFFFF]))
                         kind_ = (pl or b"none")[:4].decode("latin1")
                         out["stats"]["srv_bystander_" + kind_] = out["stats"].get("srv_bystander_" + kind_, 0) + 1
+                if rng.random() < 0.35:
+                    # a slow or lossy path: the login gets through a good while after the version handshake (the client
+                    # retransmits at +1, +3, +6, +10, +15 s); the challenge it was given is the one its response answers
+                    k.run(k.now + rng.choice([6, 9, 14, 30, 50]) * US)
+                    out["stats"]["srv_logins_delayed"] = out["stats"].get("srv_logins_delayed", 0) + 1
                 bystanders()
                 # wrong responses first: an earlier challenge of this slot, neighbours of the challenge, one flipped bit
                 wrong = []
